@@ -253,18 +253,14 @@ def annotate_modifications(molecule, modifications, mutations, resspec_counts):
     residue = {key: residue_graph.nodes[0].get(key)
                for key in 'chain resid resname insertion_code'.split()}
     for mutmod, key, library in associations:
-        for resspec, mod in mutmod:
-            extra = False
+        for idx, (resspec, mod) in enumerate(mutmod):
             mod_found = _resiter(mod, residue_graph, resspec, library, key, molecule)
-            if not mod_found:
-                #if no mod found, return that there's a problem
-                resspec_counts.append({'success': False,
-                                       'mutmod': _format_resname(resspec),
-                                       'post': mod,})
-                extra = True
-    #return that everything's fine by default
-    if not extra:
-        resspec_counts.append({'success': True})
+            # Record for every request whether it was found in this molecule,
+            # so that requests that match nowhere can be reported.
+            resspec_counts.append({'success': bool(mod_found),
+                                   'request': (key, idx),
+                                   'mutmod': _format_resname(resspec),
+                                   'post': mod,})
 
 class AnnotateMutMod(Processor):
     """
@@ -297,8 +293,14 @@ class AnnotateMutMod(Processor):
         annotate_modifications(molecule, self.modifications, self.mutations, self.resspec_counts)
         return molecule
     def run_system(self, system):
+        self.resspec_counts = []
         super().run_system(system)
-        _exit = sum([i['success'] for i in self.resspec_counts])
-        if _exit == 0:
-            LOGGER.warning('Residue specified by "{}" for mutation "{}" not found',
-                           self.resspec_counts[0]['mutmod'], self.resspec_counts[0]['post'])
+        # A request is reported if no molecule in the system matched it.
+        found = {}
+        for item in self.resspec_counts:
+            previous = found.get(item['request'], (False, item))
+            found[item['request']] = (previous[0] or item['success'], item)
+        for success, item in found.values():
+            if not success:
+                LOGGER.warning('Residue specified by "{}" for {} "{}" not found',
+                               item['mutmod'], item['request'][0], item['post'])
